@@ -416,13 +416,15 @@ def extra_short_missing(ctx, rec):
 def extra_missing_markers(ctx, rec):
     """C02: the three documented missing markers -- None, NaN and masked elements (also mixed within one masked array)"""
     g = gen_qc.Gen(ctx.seed + 67, size=ctx.pick(8, 14))
-    carriers = ["list_none", "ma_nan", "ma_junk", "ma_mixed", "tuple_nan", "ma_i64far"]
+    carriers = ["list_none", "ma_nan", "ma_junk", "ma_mixed", "tuple_nan", "ma_i64far", "ma_fill"]
     for fn in [f for f in ALL_FNS if f != "press"]:
-        for rep in range(ctx.pick(12, 60)):
+        for rep in range(ctx.pick(14, 70)):
             c = g.base(fn)
             if fn == "valid" and c["p"]["kind"] == "time":
                 continue
             xc = carriers[rep % len(carriers)]
+            if xc == "ma_fill" and fn not in ("loc", "speed") and c["x"] and all(v != gen_qc.NA for v in c["x"]):
+                c["x"][0] = gen_qc.NA            # (the carrier's guard: at least one element is really masked)
             if xc == "ma_i64far" and fn not in ("loc", "speed") and c["x"]:
                 # an integer masked array whose masked slots hide values far outside every span / threshold
                 if all(v != gen_qc.NA for v in c["x"]):
@@ -473,7 +475,7 @@ def extra_valid_int(ctx, rec):
 
 
 CARRIER_SETS_QUICK = {
-    "xc": ["list_none", "list_nan", "tuple_nan", "f32", "i64", "ma_nan", "ma_junk", "ma_mixed", "series", "series_idx", "series_shuf", "dask"],
+    "xc": ["list_none", "list_nan", "tuple_nan", "f32", "i64", "ma_nan", "ma_junk", "ma_mixed", "ma_fill", "series", "series_idx", "series_shuf", "dask"],
     "tc": ["dt64us", "dt64ms", "dt64s", "pydt", "pdts", "dtindex", "series_naive", "series_utc", "dtindex_utc",
            "series_utc_us", "dtindex_utc_s", "dtindex_us", "epoch_list", "epoch_i64", "epoch_f64"],
 }
